@@ -263,6 +263,8 @@ def random_file(rng, i):
     nrec = rng.randint(1, 5)
     recs = []
     pos = 0
+    # GT-only phasing (Beagle/SHAPEIT style): pipe genotypes under a header that declares NONE of HP/PS/PQ
+    gtonly = ns > 0 and rng.random() < 0.2
     for j in range(nrec):
         pos += rng.randint(1, 40)
         if ns == 0:
@@ -273,10 +275,13 @@ def random_file(rng, i):
         nogt = any(s is None for s in shapes)
         o = {"k": "nogt" if nogt else "multi",
              "calls": [{"gt": [], "ph": False} if nogt else s for s in shapes],
-             "pat": {"ps": rng.randint(0, 2), "hp": rng.randint(0, 2), "pq": rng.randint(0, 2)}}
+             "pat": {"ps": 0, "hp": 0, "pq": 0} if gtonly else
+                    {"ps": rng.randint(0, 2), "hp": rng.randint(0, 2), "pq": rng.randint(0, 2)}}
         recs.append(record_from_shape(o, pos, rng.randrange(1000), chrom="chr1" if j < 3 else "chr2"))
     sc = {"kind": "random", "samples": [f"s{k}" for k in range(ns)], "recs": recs, "hist": [{"op": "U"}, {"op": "U"}]}
-    if ns and rng.random() < 0.15:  # PS declared with type String (seen in the wild, cf. tests/data/string_typed_ps_tag.vcf)
+    if gtonly:
+        sc["nodef"] = ["PS", "HP", "PQ"]
+    elif ns and rng.random() < 0.15:  # PS declared with type String (seen in the wild, cf. tests/data/string_typed_ps_tag.vcf)
         sc["nodef"] = ["PS"]
         sc["extra_header"] = ['##FORMAT=<ID=PS,Number=1,Type=String,Description="Phase set (string typed)">']
     if rng.random() < 0.2:
